@@ -21,6 +21,9 @@ func Families() []Family {
 	return []Family{
 		{"kv", [][]string{{"set", "t:k", "1"}, {"append", "t:k", "x"}, {"setrange", "t:k", "2", "yy"}, {"incr", "t:k"}, {"setnx", "t:j", "n"}, {"getset", "t:k", "7"}, {"mset", "t:k", "a", "t:j", "b"}, {"del", "t:k", "t:j"}},
 			[][]string{{"get", "t:k"}, {"get", "t:j"}, {"ttl", "t:k"}}},
+		// the commands that share one write batch (set, setex, del, hmset), colliding on the first and on a later key
+		{"batchable", [][]string{{"set", "t:k", "1"}, {"set", "t:j", "2"}, {"set", "t:j", "3", "nx"}, {"setex", "t:j", "100", "v"}, {"del", "t:j"}, {"del", "t:k", "t:j"}, {"del", "t:j", "t:k"}, {"hmset", "t:j", "a", "1"}},
+			[][]string{{"get", "t:k"}, {"get", "t:j"}, {"hgetall", "t:j"}}},
 		{"hash", [][]string{{"hset", "t:h", "a", "1"}, {"hmset", "t:h", "a", "x", "b", "2"}, {"hdel", "t:h", "a"}, {"hincrby", "t:h", "b", "3"}, {"hclear", "t:h"}, {"hsetnx", "t:h", "c", "1"}},
 			[][]string{{"hgetall", "t:h"}, {"hlen", "t:h"}}},
 		{"list", [][]string{{"lpush", "t:l", "a", "b"}, {"rpush", "t:l", "c"}, {"lpop", "t:l"}, {"rpop", "t:l"}, {"ltrim", "t:l", "0", "0"}, {"lset", "t:l", "0", "z"}, {"lclear", "t:l"}},
